@@ -73,6 +73,12 @@ def failName : Option IVF.Fail → String
   | some .panic => "panic"
   | some (.err e) => FlatStream.errName (some e)
 
+/-- The implementation's outcome token agrees with the model's outcome: both succeed, or the
+    implementation returned an error (of whatever class / wording — Proto.sameOutcome) where the
+    model returns one.  A model *panic* is never matched by a returned error. -/
+def agrees (implTok : String) (e : Option IVF.Fail) : Bool :=
+  e != some .panic && sameOutcome implTok (failName e)
+
 /-- all sublists of length `r` (order preserved) -/
 def choose : Nat → List α → List (List α)
   | 0, _ => [[]]
@@ -154,7 +160,7 @@ def op (st : St) (toks : List String) : St × String :=
             s!"ok trained=1 dupcent={if dup then 1 else 0} emptycl={if empty then 1 else 0} retrain={if s.trained then 1 else 0}")
       | [e] =>
         let (s', me) := IVF.step m infBits s (.train tvs.length [])
-        if failName me == e && me.isSome then ({ bump with s := some s' }, "ok trainerr=1")
+        if me.isSome && agrees e me then ({ bump with s := some s' }, s!"ok trainerr=1 {classFlag e}")
         else ({ bump with s := some s' }, s!"DIFF train model={failName me} impl={e}")
       | _ => (st, "BADOP train outcome")
     | _, _ => (st, "BADOP train")
@@ -195,9 +201,9 @@ def op (st : St) (toks : List String) : St × String :=
           | _ => (st2, s!"SPECFAIL assign id={id} stored-in-lists={ls} expected exactly one ({i})")
         | _, _ => (st1, "BADOP add lists")
       | [ie], _ =>
-        if ie == failName e && e.isSome then (st1, s!"ok adderr=1 {if ie == "untrained" then "untrainedadd=1" else ""}")
-        else if !s.trained && ie != "untrained" then
-          (st1, s!"SPECFAIL untrained-add id={id} impl={ie} (adding before training must be the untrained error)")
+        -- a rejected Add: "adding before training is an error" — any error; that it happened
+        -- before training is read off the model state, not off the error's wording
+        if e.isSome && agrees ie e then (st1, s!"ok adderr=1 {if !s.trained then "untrainedadd=1 " else ""}{classFlag ie}")
         else (st1, s!"DIFF add model={failName e} impl={ie}")
       | _, _ =>
         if !s.trained then (st1, s!"SPECFAIL untrained-add id={id} accepted before training impl={post}")
@@ -209,7 +215,8 @@ def op (st : St) (toks : List String) : St × String :=
       let (s', e) := IVF.step m infBits s (.remove id)
       let live' := if e.isNone then st.live.filter (fun p => p.2.1 != id) else st.live
       let st' := { st with s := some s', live := live', version := st.version + 1, prev := none }
-      if post == [failName e] then (st', s!"ok {if e.isNone then "removed=1" else "removeerr=1"}")
+      if (match post with | [t] => agrees t e | _ => false) then
+        (st', s!"ok {if e.isNone then "removed=1" else "removeerr=1 " ++ classFlag (post.headD "?")}")
       else (st', s!"DIFF remove model={failName e} impl={post}")
     | _, _ => (st, "BADOP remove")
   | ["flush"] =>
@@ -217,7 +224,8 @@ def op (st : St) (toks : List String) : St × String :=
     | some s =>
       let (s', e) := IVF.step m infBits s .flush
       let st' := { st with s := some s', version := st.version + 1, prev := none }
-      if post == [failName e] then (st', "ok") else (st', s!"DIFF flush model={failName e} impl={post}")
+      if (match post with | [t] => agrees t e | _ => false) then (st', agreedReply (post.headD "ok"))
+      else (st', s!"DIFF flush model={failName e} impl={post}")
     | none => (st, "BADOP flush")
   | ["lists"] =>
     let ivfPart := post.takeWhile (· != ";;")
@@ -274,8 +282,7 @@ def op (st : St) (toks : List String) : St × String :=
           (st, s!"SPECFAIL flatref ids ivf={sortNat (ires.map (·.id))} flat={sortNat (fres.map (·.id))}")
         else (st, s!"ok dupcmp=1 n={ires.length}")
       | _, _ => (st, "BADOP cmp hits")
-    | ["err", a], ["err", c] =>
-      if a == c then (st, "ok dupcmp=1 err") else (st, s!"SPECFAIL flatref ivf=err:{a} flat=err:{c}")
+    | ["err", a], ["err", _] => (st, s!"ok dupcmp=1 err {classFlag a}")   -- both refuse: same outcome
     | _, _ => (st, s!"SPECFAIL flatref ivf={ivfPart.head?} flat={flatPart.head?}")
   | ["search", p, k, thr, filt, agg, q] =>
     match st.s, parseInt k, parseU32 thr, parseIds filt, FlatStream.parseAgg agg, parseVec q with
@@ -289,7 +296,8 @@ def op (st : St) (toks : List String) : St × String :=
       let flatPart := (post.dropWhile (· != "|")).drop 1
       match implPart, model with
       | ["err", e], .error me =>
-        if e == failName (some me) then (st, s!"ok err {if e == "untrained" then "untrainedsearch=1" else ""}")
+        -- "searching before training is an error" — any error; which one is free
+        if me != .panic then (st, s!"ok err {if !s.trained then "untrainedsearch=1 " else ""}{classFlag e}")
         else (st, s!"DIFF search-err model={failName (some me)} impl={e}")
       | ["err", e], .ok _ => (st, s!"DIFF search model=ok impl=err:{e}")
       | "ok" :: _, .error me =>
